@@ -12,13 +12,26 @@
     [sync_session_correct] lifts this to a whole file list over a destination
     state (each listed, requested file ends equal to its source, every other
     path is untouched).
-    What is NOT a theorem (correspondence only, see DESIGN.md): the mapping
-    of source arguments to destination paths across the four arrangements and
-    the walk that produces the list; those are exercised end to end by the
-    harness. *)
+    The names a serving daemon gives the selected files — which, joined to
+    the destination, are the paths the receiver writes — are covered by
+    [every_object_under_the_requested_root_is_listed],
+    [contents_of_a_directory_requested_with_a_slash] and
+    [other_requests_keep_the_module_relative_path] (model: Model/Serve.v,
+    tied to the real daemon by the serve component and to the destination
+    tree by the sync component).
+    What is NOT a theorem (correspondence only, see DESIGN.md): the client's
+    own argument handling in the push / local arrangements (absolute paths are
+    split into directory and last element before the same walk runs) and
+    filepath.Clean's action on the request (modelled, [path_clean]).
+    KNOWN FINDING visible in [mapping_examples]: a nested path requested
+    *without* trailing slash (module/d/e) keeps its whole module-relative
+    path (d/e/...) where rsync names it by its last element (e/...). *)
 From Coq Require Import ZArith List Bool.
+From Coq Require Import String.
 From RV Require Import Model.Bytes Model.Md4 Model.Checksum Model.Delta Model.Sender Model.Generator
-     Proofs.BytesProofs Proofs.SenderProofs Proofs.SearchInv Proofs.GeneratorProofs Proofs.TreeSyncProofs.
+     Model.Flist Model.Tree Model.Serve
+     Proofs.BytesProofs Proofs.SenderProofs Proofs.SearchInv Proofs.GeneratorProofs Proofs.TreeSyncProofs
+     Proofs.ServeProofs.
 Import ListNotations.
 Open Scope Z_scope.
 
@@ -77,6 +90,44 @@ Proof. vm_compute. reflexivity. Qed.
 Example new_file : file_transfer md4 9 262144 [0; 255] None = Commit [0; 255].
 Proof. vm_compute. reflexivity. Qed.
 
+(** ** Source argument -> destination path (a daemon serving a module tree) *)
+
+(** Everything that exists under the requested root is in the file list. *)
+Theorem every_object_under_the_requested_root_is_listed :
+  forall t req sub rel node,
+    valid_path (walk_root req) = true ->
+    lookup t (comps_of (walk_root req)) = Some sub -> lookup sub rel = Some node ->
+    In (comps_of (walk_root req) ++ rel) (serve_paths t req).
+Proof. exact serve_complete. Qed.
+
+(** A directory requested with a trailing slash (the strip prefix is its path
+    followed by a slash): its contents are named by their path relative to
+    it, so they land directly under the destination; the directory itself is
+    ".". *)
+Theorem contents_of_a_directory_requested_with_a_slash :
+  forall p0 rel, p0 <> [] -> wire_name (render p0 ++ [slash]) (p0 ++ rel) = render rel.
+Proof. exact wire_name_contents. Qed.
+
+(** Any other request: the module-relative path. *)
+Theorem other_requests_keep_the_module_relative_path :
+  forall p, wire_name [] p = render p.
+Proof. reflexivity. Qed.
+
+Definition s2l (s : string) : list Z := map (fun a => Z.of_nat (Ascii.nat_of_ascii a)) (list_ascii_of_string s).
+Definition map_t : ftree :=
+  TDir [(s2l "a.txt", TFile); (s2l "d", TDir [(s2l "b.txt", TFile); (s2l "e", TDir [(s2l "x", TFile)])])].
+Example mapping_examples :
+  daemon_serve (s2l "mod") map_t [s2l "mod/d/"] = [s2l "."; s2l "b.txt"; s2l "e"; s2l "e/x"] /\
+  daemon_serve (s2l "mod") map_t [s2l "mod/d/e/"] = [s2l "."; s2l "x"] /\
+  daemon_serve (s2l "mod") map_t [s2l "mod/d"] = [s2l "d"; s2l "d/b.txt"; s2l "d/e"; s2l "d/e/x"] /\
+  daemon_serve (s2l "mod") map_t [s2l "mod/d/e"] = [s2l "d/e"; s2l "d/e/x"] /\
+  get_strip (s2l "/d/e/") = render [s2l "d"; s2l "e"] ++ [slash] /\
+  comps_of (walk_root (s2l "/d/e/")) = [s2l "d"; s2l "e"].
+Proof. vm_compute. repeat split; reflexivity. Qed.
+
 Print Assumptions sync_file_correct.
 Print Assumptions sync_sender_succeeds.
 Print Assumptions sync_session_correct.
+Print Assumptions every_object_under_the_requested_root_is_listed.
+Print Assumptions contents_of_a_directory_requested_with_a_slash.
+Print Assumptions other_requests_keep_the_module_relative_path.
